@@ -13,7 +13,11 @@ EXPLANATION = (
     "builder vs model and independent container parser; retail (modified MD5) and shader (MD5) hashes vs independent "
     "Lean implementations; and every whole dxil.Compile output sampled is validated by the Lean container+bitstream "
     "reader (header, part table bounds/tiling, digest, program header vs stage/shader model, HASH part, bitstream "
-    "nesting/lengths/alignment, no abbreviations), plus double-compilation determinism. The 50 kLOC emitter that produces "
+    "nesting/lengths/alignment, no abbreviations; then Model/BitcodeSem on the parsed tree: NUMENTRY = number of type records, every type "
+    "index inside types / globals / constants / casts / loads / GEPs / calls in range, module value numbering = globals, functions, constants, "
+    "each function body continuing with its parameters and one value per result-bearing instruction, every relative operand naming an "
+    "already defined value, phi operands inside the function's value range, absolute alloca sizes defined, block indices below DECLAREBLOCKS, "
+    "metadata node / named-node / value operands naming existing entries), plus double-compilation determinism. The 50 kLOC emitter that produces "
     "the records is validated per instance only (translation-validation level for that part).")
 ASSUMPTIONS = [
     "Lean 4 kernel; axioms propext, Classical.choice, Quot.sound only",
